@@ -7,8 +7,12 @@
                                                        PRel
         if forced: ... return                          (-> PFin)
         ... rpc_request(Channel.Close) ...             PSend
-        finally: self.set_state(CLOSED)                PFin
+        finally: if not elsewhere:                     PFin
+                     self.set_state(CLOSED)
       and the same without the lock (the code before fix 30ae445).
+      `elsewhere` (the channel was found CLOSING: somebody else finishes the close) can only be
+      true of a forced caller; which forced callers skip the final CLOSED is left to an arbitrary
+      oracle `skip`, so every behaviour of the source is a behaviour of the model.
 
    B. the reader recording a broker Channel.Close vs. callers running
       check_for_errors (C07):
@@ -39,7 +43,7 @@ Definition mk (s : cls) (f : fstate) (lk : option nat) (t : nat) (x : cthr) (sen
   {| cl_flag := f; cl_lock := lk; cl_thr := set_cthr (cl_thr s) t x; cl_sent := sent |}.
 
 (* one step of thread t; `locked` selects the program with or without the lock *)
-Definition close_step (locked : bool) (s : cls) (t : nat) : cls :=
+Definition close_step (locked : bool) (skip : nat -> bool) (s : cls) (t : nat) : cls :=
   match nth_error (cl_thr s) t with
   | None => s
   | Some th =>
@@ -58,7 +62,8 @@ Definition close_step (locked : bool) (s : cls) (t : nat) : cls :=
     | PRel => mk s (cl_flag s) (if locked then None else cl_lock s) t
                  {| c_pc := if c_forced th then PFin else PSend; c_forced := c_forced th |} (cl_sent s)
     | PSend => mk s (cl_flag s) (cl_lock s) t {| c_pc := PFin; c_forced := c_forced th |} (S (cl_sent s))
-    | PFin => mk s FClosed (cl_lock s) t {| c_pc := PDone; c_forced := c_forced th |} (cl_sent s)
+    | PFin => mk s (if c_forced th && skip t then cl_flag s else FClosed) (cl_lock s) t
+                 {| c_pc := PDone; c_forced := c_forced th |} (cl_sent s)
     | PDone => s
     end
   end.
@@ -66,8 +71,8 @@ Definition close_step (locked : bool) (s : cls) (t : nat) : cls :=
 Definition close_init (n : nat) : cls :=
   {| cl_flag := FOpen; cl_lock := None;
      cl_thr := repeat {| c_pc := PAcq; c_forced := false |} n; cl_sent := 0 |}.
-Definition close_run (locked : bool) (n : nat) (sched : list nat) : cls :=
-  fold_left (close_step locked) sched (close_init n).
+Definition close_run (locked : bool) (skip : nat -> bool) (n : nat) (sched : list nat) : cls :=
+  fold_left (close_step locked skip) sched (close_init n).
 
 (* ---------------- B ---------------- *)
 Inductive qpc := QErrs1 | QClosed | QErrs2 | QDone (coded : bool).   (* QDone true: raised the broker's
